@@ -212,9 +212,14 @@ func (ps *specParser) parseExpr() Expr {
 			vars = append(vars, v.text)
 			ty := ""
 			star := ""
+			if ps.isOp("[") {
+				ps.next()
+				ps.expect("]")
+				star = "[]"
+			}
 			if ps.isOp("*") {
 				ps.next()
-				star = "*"
+				star += "*"
 			}
 			if ps.peek().kind == "id" {
 				ty = star + ps.next().text
